@@ -42,7 +42,8 @@ abbrev St := Option Bytes
 def withBuf (b : Bytes) (s : String) : String := s!"{s} buf={Hex.ofBytes b}"
 
 /-- every mutating API call goes through `TlvStateMut::unpack(buf)?` first -/
-def guardOp {α} (d : Bytes) (f : Unit → Bytes × Res α) : Bytes × Res α :=
+def guardOp {α} (d : Bytes) (f : Unit → Bytes × Res α) (held : Bool := false) : Bytes × Res α :=
+  if held then f () else   -- inside `multi` the handle is already open: no second `unpack`
   match unpack d with
   | .ok _ => f ()
   | .err x => (d, .err x)
@@ -53,30 +54,30 @@ def showR {α} (f : α → String) : Res α → String
   | .err x => e x
   | .panic => "panic"
 
-def op (d : Bytes) (toks : List String) : Option (Bytes × String) :=
+def op (d : Bytes) (toks : List String) (held : Bool := false) : Option (Bytes × String) :=
   match toks with
   | ["alloc", t, len, allow] => do
     let tg ← tag? t
     let len ← len.toNat?
-    let (d', r) := guardOp d (fun _ => alloc d tg len (allow = "1"))
+    let (d', r) := guardOp d (fun _ => alloc d tg len (allow = "1")) held
     pure (d', withBuf d' (showR (fun ((lo, hi), rep) => s!"{lo}:{hi}:{rep}") r))
   | ["init", t, s, allow] => do
     let n ← size? s
     let dflt := List.replicate n (UInt8.ofNat (n + 1))
     let tg ← tag? t
-    let (d', r) := guardOp d (fun _ => initValue d tg dflt (allow = "1"))
+    let (d', r) := guardOp d (fun _ => initValue d tg dflt (allow = "1")) held
     pure (d', withBuf d' (showR (fun ((lo, hi), rep) => s!"{lo}:{hi}:{rep}") r))
   | ["realloc", t, len, rep] => do
     let tg ← tag? t
     let len ← len.toNat?
     let rep ← rep.toNat?
-    let (d', r) := guardOp d (fun _ => realloc d tg len rep)
+    let (d', r) := guardOp d (fun _ => realloc d tg len rep) held
     pure (d', withBuf d' (showR (fun (lo, hi) => s!"{lo}:{hi}") r))
   | ["write", t, rep, v] => do
     let tg ← tag? t
     let rep ← rep.toNat?
     let v ← Hex.toBytes v
-    let (d', r) := guardOp d (fun _ => writeValue d tg rep v)
+    let (d', r) := guardOp d (fun _ => writeValue d tg rep v) held
     pure (d', withBuf d' (showR (fun _ => "()") r))
   | ["typed", t, s, rep, v] => do
     let n ← size? s
@@ -88,18 +89,18 @@ def op (d : Bytes) (toks : List String) : Option (Bytes × String) :=
       match getValue d tg rep n with
       | .ok _ => writeValue d tg rep v
       | .err x => (d, .err x)
-      | .panic => (d, .panic))
+      | .panic => (d, .panic)) held
     pure (d', withBuf d' (showR (fun _ => "()") r))
   | ["pack", t, rep, v] => do
     let tg ← tag? t
     let rep ← rep.toNat?
     let v ← Hex.toBytes v
-    let (d', r) := guardOp d (fun _ => packVarLen d tg rep v)
+    let (d', r) := guardOp d (fun _ => packVarLen d tg rep v) held
     pure (d', withBuf d' (showR (fun _ => "()") r))
   | ["allocpack", t, allow, v] => do
     let tg ← tag? t
     let v ← Hex.toBytes v
-    let (d', r) := guardOp d (fun _ => allocAndPack d tg v (allow = "1"))
+    let (d', r) := guardOp d (fun _ => allocAndPack d tg v (allow = "1")) held
     pure (d', withBuf d' (showR (fun rep => s!"{rep}") r))
   | ["get", t, rep] => do
     let tg ← tag? t
@@ -125,6 +126,29 @@ def op (d : Bytes) (toks : List String) : Option (Bytes × String) :=
       | .panic => "panic"
     some (d, withBuf d s)
   | _ => none
+
+/-- split the tokens of a `multi` line on "/" -/
+def splitOps : List String → List (List String)
+  | [] => [[]]
+  | t :: ts =>
+    match splitOps ts with
+    | [] => [[t]]
+    | g :: gs => if t = "/" then [] :: g :: gs else (t :: g) :: gs
+
+def stripBuf (s : String) : String := (s.splitOn " buf=").headD s
+
+/-- `O multi a / b / c` — the mutations run on one handle: one `unpack`, then the operations in order
+    without a second check (a buffer that opened may, after an entry was written over non-zero
+    spare bytes, no longer open from scratch while the handle keeps working) -/
+def multi (d : Bytes) (ops : List (List String)) : Option (Bytes × String) :=
+  match unpack d with
+  | .ok _ => do
+    let (d', rs) ← ops.foldlM (fun (acc : Bytes × List String) o => do
+      let (d2, s) ← op acc.1 o true
+      pure (d2, acc.2 ++ [stripBuf s])) (d, [])
+    pure (d', withBuf d' ("multi " ++ ";".intercalate rs))
+  | .err x => some (d, withBuf d ("multi " ++ e x))
+  | .panic => some (d, withBuf d "multi panic")
 
 def handle (st : St) (toks : List String) : Option (St × String) :=
   match toks with
@@ -155,6 +179,10 @@ def handle (st : St) (toks : List String) : Option (St × String) :=
   | ["B", _, "tlv", _, h] => do
     let d ← Hex.toBytes h
     pure (some d, "begin")
+  | "O" :: "multi" :: rest =>
+    match st with
+    | some d => (multi d (splitOps rest)).map (fun (d', s) => (some d', s))
+    | none => none
   | "O" :: rest =>
     match st with
     | some d => (op d rest).map (fun (d', s) => (some d', s))
